@@ -198,6 +198,21 @@ func EvalAll(c *core.Ctx, line string) []*core.Case {
 				if len(sm) != 6 || len(dm) != 6 || sm[0]&1 == 1 {
 					return ""
 				}
+				// the same frame as it arrives from the wire: frames below the Ethernet minimum are padded with zeros
+				// (Ether.AppendPayload pads to 60 bytes as well); padding must not make a well-formed datagram invalid
+				if len(frame) < 60 {
+					padded := append(append([]byte{}, frame...), make([]byte, 60-len(frame))...)
+					pf, perr := session.Parse(padded)
+					if perr != nil {
+						return "Parse rejects a frame composed by the library's own encoders once it is padded to the Ethernet minimum of 60 bytes: " + perr.Error()
+					}
+					if want := classOf(sp, dp); int(pf.PayloadID) != want {
+						return fmt.Sprintf("composed UDP frame %d->%d padded to 60 bytes is classified as PayloadID %d, expected %d", sp, dp, pf.PayloadID, want)
+					}
+					if pu := pf.UDP(); pu == nil || int(pu.SrcPort()) != sp || int(pu.DstPort()) != dp || int(pu.Len()) != 8+len(pl) {
+						return "library UDP view of the padded frame does not read back the encoded ports/length"
+					}
+				}
 				fr, err := session.Parse(frame)
 				if err != nil {
 					return "Parse rejects a frame composed by the library's own encoders: " + err.Error()
